@@ -166,7 +166,7 @@ def no_pointer_identity(ck, rid="C03-O9", scope=None):
         ck.ob(rid, "src/qtlogger", True, "%d functions and the library's classes: no container keyed by a raw const char *" % n, key="pointer-key|none")
 
 
-def copy_ctor(ck):
+def copy_ctor(ck, rid="C03-O1"):
     F = ck.facts
     rec = F.record(LM)
     cc = [f for f in F.fn_all(LM + "::LogMessage") if f.d.get("copyctor")]
@@ -183,24 +183,24 @@ def copy_ctor(ck):
     for fld in fields:
         i = inits.get(fld)
         if i is None or not i.get("written"):
-            ck.ob("C03-O1", sitestr(cc), False, "member %s is not initialised by the copy constructor: it takes its default initialiser (re-sampled on the worker thread / empty)" % fld, key="LogMessage(copy)|missing|%s" % fld)
+            ck.ob(rid, sitestr(cc), False, "member %s is not initialised by the copy constructor: it takes its default initialiser (re-sampled on the worker thread / empty)" % fld, key="LogMessage(copy)|missing|%s" % fld)
             continue
         e = skip_copies(i["e"])
         if fld in ptr:
             ok = e.get("k") == "construct" and e.get("class") == "QByteArray" and e.get("args") and src_ctx(e["args"][0], src, ptr[fld])
-            ck.ob("C03-O1", sitestr(cc, e), ok, "%s owns a copy of the source's %s" % (fld, ptr[fld]) if ok else "%s is initialised from %s" % (fld, describe(e)), key="LogMessage(copy)|source|%s" % fld)
+            ck.ob(rid, sitestr(cc, e), ok, "%s owns a copy of the source's %s" % (fld, ptr[fld]) if ok else "%s is initialised from %s" % (fld, describe(e)), key="LogMessage(copy)|source|%s" % fld)
         elif fld == "m_context":
-            context_init(ck, cc, e, src, fields)
+            context_init(ck, cc, e, src, fields, rid)
         else:
             ok = is_field(e, LM + "::" + fld) and is_ref_to(skip_copies(e).get("base"), src)
             # a member of class type built from the source by its own constructor (a struct that groups the owned strings): how it copies is that
             # constructor's business - not decided here, and not a violation
             from_src = not ok and e.get("k") == "construct" and any(x.get("k") == "ref" and x.get("decl") == src for x in walk(e)) and \
                 (e.get("class") or "") not in ("QString", "QByteArray", "QDateTime", "QHash", "QVariantHash")
-            ck.ob("C03-O1", sitestr(cc, e), True if ok else (None if from_src else False), "%s <- source.%s" % (fld, fld) if ok else "%s is initialised from %s, not from the source's %s" % (fld, describe(e), fld), key="LogMessage(copy)|source|%s" % fld)
+            ck.ob(rid, sitestr(cc, e), True if ok else (None if from_src else False), "%s <- source.%s" % (fld, fld) if ok else "%s is initialised from %s, not from the source's %s" % (fld, describe(e), fld), key="LogMessage(copy)|source|%s" % fld)
     for m in rec["methods"]:
         if m["kind"] in ("movector", "copyassign", "moveassign") and m.get("userProvided"):
-            ck.ob("C03-O1", "logmessage.h (%s)" % m["sig"], None, "user-provided %s is not analysed" % m["kind"])
+            ck.ob(rid, "logmessage.h (%s)" % m["sig"], None, "user-provided %s is not analysed" % m["kind"])
 
 
 def src_ctx(n, src, what):
@@ -211,13 +211,13 @@ def src_ctx(n, src, what):
     return is_field(b, LM + "::m_context") and is_ref_to(skip_copies(b).get("base"), src)
 
 
-def context_init(ck, cc, e, src, fields):
+def context_init(ck, cc, e, src, fields, rid="C03-O1"):
     if not (e.get("k") == "construct" and e.get("class") == "QMessageLogContext" and len(e.get("args", [])) == 4):
-        ck.ob("C03-O1", sitestr(cc, e), None, "m_context initialiser %s not recognised" % describe(e))
+        ck.ob(rid, sitestr(cc, e), None, "m_context initialiser %s not recognised" % describe(e))
         return
     a = e["args"]
     okline = src_ctx(a[1], src, "line")
-    ck.ob("C03-O1", sitestr(cc, a[1]), okline, "line <- source line" if okline else "line is %s" % describe(a[1]), key="LogMessage(copy)|context|line")
+    ck.ob(rid, sitestr(cc, a[1]), okline, "line <- source line" if okline else "line is %s" % describe(a[1]), key="LogMessage(copy)|context|line")
     for idx, (own, what) in ((0, ("m_file", "file")), (2, ("m_function", "function")), (3, ("m_category", "category"))):
         is_srcptr = lambda n, what=what: src_ctx(n, src, what)
         vals = {}
@@ -227,25 +227,25 @@ def context_init(ck, cc, e, src, fields):
         own_ok = lambda leaf: is_call(leaf, ("QByteArray::constData", "QByteArray::data")) and is_this_field(deref_local(cc, skip_copies(leaf).get("obj")), LM + "::" + own)
         dangling = any(src_ctx(v, src, what) for v in vals.values())
         if dangling:
-            ck.ob("C03-O1", sitestr(cc, a[idx]), False, "the copy's %s pointer is the source's pointer: it dangles as soon as the caller's buffer is freed" % what, key="LogMessage(copy)|dangling|%s" % what)
+            ck.ob(rid, sitestr(cc, a[idx]), False, "the copy's %s pointer is the source's pointer: it dangles as soon as the caller's buffer is freed" % what, key="LogMessage(copy)|dangling|%s" % what)
             continue
         if own not in fields:
             # the owned buffer may live elsewhere in the object (a member struct held by value): a pointer into a QByteArray that is part of *this* is re-homed
             lf_ = skip_copies(vals[True]) if isinstance(vals[True], dict) else None
             inside = isinstance(lf_, dict) and is_call(lf_, ("QByteArray::constData", "QByteArray::data")) and isinstance(lf_.get("obj"), dict) and \
                 skip_copies(lf_["obj"]).get("k") == "member" and is_this_field(skip_copies(lf_["obj"]), strip_tmpl(skip_copies(lf_["obj"]).get("name") or ""))
-            ck.ob("C03-O1", sitestr(cc, a[idx]), None if inside else False, "the copy's %s points into %s, a buffer inside the copy that this rule does not follow to its initialiser" % (what, describe(lf_.get("obj"))[:40]) if inside else
+            ck.ob(rid, sitestr(cc, a[idx]), None if inside else False, "the copy's %s points into %s, a buffer inside the copy that this rule does not follow to its initialiser" % (what, describe(lf_.get("obj"))[:40]) if inside else
                   "the copy has no owned buffer for %s (member %s is gone) and its pointer is %s" % (what, own, describe(vals[True])), key="LogMessage(copy)|rehome|%s" % what)
             continue
         ok1 = own_ok(vals[True])
-        ck.ob("C03-O1", sitestr(cc, a[idx]), ok1, "%s points into the copy's own %s" % (what, own) if ok1 else "with a non-null source the copy's %s is %s" % (what, describe(vals[True])), key="LogMessage(copy)|rehome|%s" % what)
+        ck.ob(rid, sitestr(cc, a[idx]), ok1, "%s points into the copy's own %s" % (what, own) if ok1 else "with a non-null source the copy's %s is %s" % (what, describe(vals[True])), key="LogMessage(copy)|rehome|%s" % what)
         v0 = skip_copies(vals[False])
         ok0 = v0.get("k") == "null_lit"
         ck.ob("C03-O7", sitestr(cc, a[idx]), ok0, "a null %s stays null" % what if ok0 else
               "a null %s becomes %s (QByteArray::constData() is never null): Qt's formatter prints nothing where it prints 'unknown' synchronously" % (what, describe(v0)), key="LogMessage(copy)|null-lost|%s" % what)
         # declaration order: the owned buffer is initialised before m_context
         okord = fields.index(own) < fields.index("m_context")
-        ck.ob("C03-O1", "logmessage.h (%s before m_context)" % own, okord, "%s is declared (hence initialised) before m_context" % own if okord else "%s is initialised after m_context uses it" % own, key="LogMessage|order|%s" % own)
+        ck.ob(rid, "logmessage.h (%s before m_context)" % own, okord, "%s is declared (hence initialised) before m_context" % own if okord else "%s is initialised after m_context uses it" % own, key="LogMessage|order|%s" % own)
 
 
 def handoff(ck, proc):
